@@ -325,3 +325,40 @@ pub fn weight(rng: &mut Rng) -> f64 {
 pub fn constraints_new(from: [f64; 6], to: [f64; 6], w: f64) -> Constraints {
     Constraints::new(from, to, w)
 }
+
+/// Limits set through `update_range` on an existing constraint set whose earlier limits relate to the
+/// new ones joint by joint in a random way: unrelated range, only `from` changes, only `to` changes,
+/// earlier from == to (unconstrained), or no change at all. The result must behave exactly like a
+/// freshly constructed set; the earlier state may not show through.
+pub fn via_update_range(rng: &mut Rng, from: [f64; 6], to: [f64; 6], w: f64) -> Constraints {
+    let (mut f0, mut t0) = (from, to);
+    for j in 0..6 {
+        match rng.usize(6) {
+            0 => {
+                f0[j] = rng.range(-4.0, 4.0);
+                t0[j] = rng.range(-4.0, 4.0);
+            }
+            1 => f0[j] = from[j] + rng.sign() * rng.range(0.1, 3.0),
+            2 => t0[j] = to[j] + rng.sign() * rng.range(0.1, 3.0),
+            3 => {
+                let v = rng.range(-3.0, 3.0);
+                f0[j] = v;
+                t0[j] = v;
+            }
+            4 => {
+                f0[j] = 0.0;
+                t0[j] = 1.0;
+            }
+            _ => {}
+        }
+    }
+    let mut c = Constraints::new(f0, t0, w);
+    if rng.bool(0.3) {
+        // an intermediate update on the way
+        let mid_f: [f64; 6] = std::array::from_fn(|j| if rng.bool(0.5) { from[j] } else { rng.range(-4.0, 4.0) });
+        let mid_t: [f64; 6] = std::array::from_fn(|j| if rng.bool(0.5) { to[j] } else { rng.range(-4.0, 4.0) });
+        c.update_range(mid_f, mid_t);
+    }
+    c.update_range(from, to);
+    c
+}
